@@ -79,3 +79,17 @@ claim(
     'Necessary conditions except R1, which is the forwarding clause itself.',
     'AST forwarding/funnel rules + three-valued path evaluation of guard necessity',
 )
+
+claim(
+    'C15',
+    'Decided (necessary conditions): Immutable raises unconditionally from __setattr__ and __delattr__ and no subclass '
+    'overrides them or __eq__/__hash__; the maps define no mutator and copy their input; for each of the nine value '
+    'classes __slots__[:-1] = super().__init__ keywords = __init__ parameter order, the pickle/copy reducer rebuilds '
+    'through the constructor without _hash, equality and hash range over the same list, every class is registered; '
+    'contents are frozen and the map hash is built from sorted items; compile() hands exactly its four inputs to the '
+    'bounded lru_cache (maps wrapped under an is-not-None test), purge clears it, and compile(compiled, extra) cannot '
+    'return when any extra argument is given (three-valued path evaluation). Not decided: equality of values across '
+    'compile/pickle as observed results and LRU contents over call histories.',
+    '',
+    'AST table-agreement rules + three-valued path evaluation of the pass-through guards',
+)
